@@ -67,6 +67,7 @@ def get_index_of_closing_parenthesis(string, opening_parenthesis_offset=0):
     closing_parenthesis_offset = opening_parenthesis_offset
     embedded_parentheses = 0
     comment_indicator = 0
+    comment_start_index = 0
     literal_indicator = 0
 
     for index, character in enumerate(
@@ -78,7 +79,10 @@ def get_index_of_closing_parenthesis(string, opening_parenthesis_offset=0):
         if comment_indicator:
 
             if (comment_indicator == 1 and character == "\n") or (
-                comment_indicator == 2 and character == "/" and string[index - 1] == "*"
+                comment_indicator == 2
+                and character == "/"
+                and string[index - 1] == "*"
+                and index - 1 > comment_start_index + 1
             ):
                 comment_indicator = 0
 
@@ -136,8 +140,9 @@ def get_index_of_closing_parenthesis(string, opening_parenthesis_offset=0):
                     logger.error(log_message)
                     raise MasterSchemaParsingError(log_message)
 
-                # Set the comment indicator
+                # Set the comment indicator (the closing "*/" cannot share its "*" with this "/*")
                 comment_indicator = 2
+                comment_start_index = index
 
             elif character == "'":
                 literal_indicator = 1
@@ -210,8 +215,9 @@ def parse_comment_from_sql_segment(sql_segment):
     # Check if the sql segment starts with "/*"
     elif sql_segment.startswith("/*"):
 
-        comment = sql_segment[: sql_segment.index("*/") + 2]
-        remaining_sql_segment = sql_segment[sql_segment.index("*/") + 2 :]
+        # (The closing "*/" cannot share its "*" with the opening "/*")
+        comment = sql_segment[: sql_segment.index("*/", 2) + 2]
+        remaining_sql_segment = sql_segment[sql_segment.index("*/", 2) + 2 :]
 
         return comment, remaining_sql_segment
 
